@@ -60,7 +60,12 @@ impl FromStr for Class {
     type Err = &'static str;
 
     fn from_str(text: &str) -> Result<Self, Self::Err> {
-        match Caseless(text) {
+        // NOTE: a pattern like `Caseless("IN")` destructures the
+        // wrapper and compares the inner string exactly (the
+        // case-insensitive `PartialEq` impl is not consulted), so we
+        // normalize the case of the text before matching.
+        let upper = text.to_ascii_uppercase();
+        match Caseless(&upper) {
             Caseless("IN") => Ok(Self::IN),
             Caseless("CH") => Ok(Self::CH),
             Caseless("HS") => Ok(Self::HS),
